@@ -429,6 +429,10 @@ func (d *Descriptor) readJSONObjectKV(out Outputter, data []byte) (n int, err er
 			}
 			jType = jsonType(v)
 			offset += n
+			if jType == jsonTypeNil {
+				// nil is carried by the type alone: there is no value field
+				out.Raw("null")
+			}
 		case 3:
 			switch jType {
 			case jsonTypeString:
